@@ -39,7 +39,8 @@ input == <<lines, expect, sig>>
 parsed == <<desc, params, ptypes, attrs, atypes, excs, ret, rtype>>
 
 \* aliasmod: a module in which every documented name is imported from a package that is not loaded (unresolvable alias)
-Parents == {"none", "module", "class", "function", "init", "property", "tuplefn", "genfn", "aliasmod", "tupleprop", "tuple0fn", "gen1fn", "gen2fn", "iterfn"}
+Parents == {"none", "module", "class", "function", "init", "property", "tuplefn", "genfn", "aliasmod", "tupleprop", "tuple0fn", "gen1fn", "gen2fn", "iterfn",
+            "detachedinit"}      \* detachedinit: a hand-built function named __init__ without any parent (not "__init__ in a class")
 FieldKinds == {"type", "param", "vartype", "var", "raises", "returns", "rtype"}
 Names == {"x", "y"}
 
@@ -102,9 +103,12 @@ Split(P, b) == IF b THEN pcand \cap P ELSE pcand \ P
 
 \* =========================================== the case space ===========================================================
 NoSig == [ann |-> FALSE, def |-> FALSE]
+\* Docstring.value = inspect.cleandoc(source.rstrip()): first and last line non-blank, and the common indentation is removed, so
+\* SOME non-blank line (possibly the first: a source that starts with a newline keeps the relative indentation of its first
+\* paragraph) has no indentation.  ("Args:" followed only by indented lines is the most common docstring shape.)
 CleandocFixedPoint(d) ==
-  /\ d[1].k \notin {"blank", "cont"} /\ ~IsBlank(d[Len(d)])
-  /\ (Len(d) > 1 => \E j \in 2..Len(d) : d[j].k \notin {"blank", "cont"})
+  /\ ~IsBlank(d[1]) /\ ~IsBlank(d[Len(d)])
+  /\ \E j \in 1..Len(d) : d[j].k \notin {"blank", "cont"}
 
 \* ---- struct mode: summary, then fields ---------------------------------------------------------------------------
 \* description shapes: one line; + an indented line; + a blank line and an indented line; + an indented line starting with a role
@@ -203,8 +207,8 @@ RenderLines(st, layout) ==
 \* every cleandoc-stable sequence of 1..MaxLen classes (enumerated piecewise: first line, middle, last line), + the empty docstring
 SeqLines ==
   \/ lines = <<Blank>>
-  \/ \E n \in 1..MaxLen : \E a \in {x \in Alphabet : x.k \notin {"blank", "cont"}} :
-       IF n = 1 THEN lines = <<a>>
+  \/ \E n \in 1..MaxLen : \E a \in {x \in Alphabet : ~IsBlank(x)} :
+       IF n = 1 THEN lines = <<a>> /\ CleandocFixedPoint(lines)
        ELSE \E z \in {x \in Alphabet : ~IsBlank(x)}, m \in [1..(n - 2) -> Alphabet] :
               lines = <<a>> \o m \o <<z>> /\ CleandocFixedPoint(lines)
 InitSeq ==
